@@ -1294,16 +1294,21 @@ def run_commitio(ctx, runs, steps, profile="crash", modules=("CommitTrace", "Res
     ctx.cov["traces_validated_against_impl"] += stats["runs"]
     if "ResizeTrace" in modules:
         # the binding has teeth: a growing set_len whose sync is removed makes the next header write name space that is not durable
-        cur, done = None, False
+        cur, done, page = None, False, 512
         for i, l in enumerate(all_lines):
             if l["e"] == "reset":
                 cur = l["len"]
+                page = l["cfg"]["page_size"]
             if l["e"] == "setlen":
                 if l["len"] > cur and all_lines[i + 1]["e"] == "sync":
                     j = i + 2
                     while all_lines[j]["e"] not in ("sync", "hdr", "reset"):
                         j += 1
-                    if all_lines[j]["e"] == "hdr":
+                    # the next header write must name the new space (its counts describe more than the old length)
+                    def names(h):
+                        (full, trailing), (hp, mp) = h["regions"], h["geom"]
+                        return 1 + full * (hp + mp) + (hp + trailing if trailing > 0 else 0)
+                    if all_lines[j]["e"] == "hdr" and names(all_lines[j]["h"]) * page > cur:
                         btrace = trace + ".mut"
                         with open(btrace, "w") as f:
                             for r in all_lines[:i + 1] + all_lines[i + 2:]:
